@@ -517,7 +517,10 @@ func (w *c18World) probeBlocked(p *PRNG, limit int) {
 	}
 }
 
-var c18Contents = []string{`{"msg":"hi"}`, `{}`, `[1,2]`, `"s"`, `0`, `{"a":{"b":"/"}}`, `null`}
+// contents are the sender's bytes: valid JSON with insignificant white space, key order, escapes and number spellings
+// of the sender's choosing must come back from the inbox as sent
+var c18Contents = []string{`{"msg":"hi"}`, `{}`, `[1,2]`, `"s"`, `0`, `{"a":{"b":"/"}}`, `null`,
+	`{"msg": "hey bob", "n": 2}`, "{\n  \"msg\": \"pretty\",\n  \"n\": 3\n}", ` {"lead":1} `, `{"b":1,"a":2}`, `{"u":"\u0041\/"}`, `1.50`, `[ ]`, "{\t\"tab\":true}"}
 
 func (w *c18World) allNotes() []c18Note {
 	out := []c18Note{}
@@ -611,7 +614,8 @@ func (w *c18World) genOp(p *PRNG, seq int) c18Op {
 			}
 			o.From = strings.ToUpper(nt.From)
 		case 10: // adversarial from strings built from key pieces
-			o.From = PickOne(p, []string{nt.From + "/", nt.To + "/" + nt.From, "", "/", nt.From + fmt.Sprintf("/%d", nt.Time)})
+			o.From = PickOne(p, []string{nt.From + "/", nt.To + "/" + nt.From, "", "/", nt.From + fmt.Sprintf("/%d", nt.Time),
+				"../" + nt.To + "/" + nt.From, "./" + nt.From, nt.From + "/.", "/" + nt.From, "../../" + nt.To + "/" + nt.From})
 		default: // whoever was drawn (often a stranger)
 		}
 	default:
@@ -842,13 +846,14 @@ func runC18(r *RunCtx) error {
 			c18Op{Kind: "create", Signer: 0, Creator: up(A), To: "bob.jkl", Contents: `{"n":8}`},     // same key again
 			c18Op{Kind: "create", Signer: 2, Creator: C, To: B, Contents: `{"n":9}`},                 // other sender, same block
 			"advance",
-			c18Op{Kind: "create", Signer: 0, Creator: A, To: B, Contents: `{"n":10}`},
+			c18Op{Kind: "create", Signer: 0, Creator: A, To: B, Contents: `{"n": 10, "note": "spaced out"}`},
 			c18Op{Kind: "create", Signer: 2, Creator: C, To: "dave.ibc", Contents: `{"n":11}`},
 			"repoint",
 			c18Op{Kind: "create", Signer: 2, Creator: C, To: "dave.ibc", Contents: `{"n":12}`}, // now lands at B
 			c18Op{Kind: "delete", Signer: 0, Creator: A, From: A, Time: T0.UnixMicro()},        // the sender tries to delete B's entry
 			c18Op{Kind: "delete", Signer: 0, Creator: A, From: B, Time: T0.UnixMicro()},        // ... naming the recipient
 			c18Op{Kind: "delete", Signer: 3, Creator: D, From: A, Time: T0.UnixMicro()},        // a stranger
+			c18Op{Kind: "delete", Signer: 3, Creator: D, From: "../" + B + "/" + A, Time: T0.UnixMicro()}, // a stranger, with a path-shaped sender
 			c18Op{Kind: "delete", Signer: 1, Creator: B, From: up(A), Time: T0.UnixMicro()},    // recipient, sender respelled: no such entry
 			c18Op{Kind: "delete", Signer: 1, Creator: B, From: A, Time: T0.UnixMicro() + 1},    // recipient, wrong time
 			c18Op{Kind: "delete", Signer: 1, Creator: up(B), From: A, Time: T0.UnixMicro()},    // the recipient, upper-case signer
